@@ -134,6 +134,97 @@ Theorem C19_gen_keyLess_decisions :
 Proof. exact gen_sim_keyLess. Qed.
 Print Assumptions C19_gen_keyLess_decisions.
 
+(* SortedKeyMap.Set: a new key is appended and the key slice re-sorted (1, 2); the value is stored either way (3) *)
+Theorem C19_gen_sorted_map_set :
+  forall (V : Type) lt (m : skm V) k v,
+  skm_set lt m k v =
+  match g_skm_set (is_some (lookup k (sk_vals m))) with
+  | ([1; 2; 3], Fall) => mkSkm (sort_keys lt (sk_keys m ++ [k])) (update k v (sk_vals m))
+  | ([3], Fall) => mkSkm (sk_keys m) (update k v (sk_vals m))
+  | _ => m
+  end.
+Proof. exact gen_skm_set. Qed.
+Print Assumptions C19_gen_sorted_map_set.
+
+(* SortedKeyMap.Get: the stored value when the key is known, the zero value and false otherwise *)
+Theorem C19_gen_sorted_map_get :
+  forall (V : Type) (m : skm V) k,
+  g_skm_get (is_some (skm_get m k)) = ([], RetO (if is_some (skm_get m k) then 1 else 0)).
+Proof. exact gen_skm_get. Qed.
+Print Assumptions C19_gen_sorted_map_get.
+
+(* SortedKeyMap.Keys(count): count clamped to the number of keys (1), then the copy loop (2) takes them from the top end *)
+Theorem C19_gen_sorted_map_keys :
+  forall (V : Type) (m : skm V) count,
+  skm_keys m count =
+  let n := length (sk_keys m) in
+  match g_skm_keys (Z.of_nat count) (Z.of_nat n) with
+  | ([1; 2], RetO 1) => firstn n (rev (sk_keys m))
+  | ([2], RetO 1) => firstn count (rev (sk_keys m))
+  | _ => []
+  end.
+Proof. exact gen_skm_keys. Qed.
+Print Assumptions C19_gen_sorted_map_keys.
+
+(* OCR3TransmitLoader.Transmit, encoders succeeding: queued and recorded (4, 5) exactly when the (report, round) key was not transmitted before *)
+Theorem C19_gen_transmit_once :
+  forall s t,
+  tl_transmit s t =
+  match g_sim_transmit false false (key_mem (tx_key t) (map tx_key (tl_done s))) with
+  | ([1; 2; 3; 4; 5], RetO 0) => (mkTl (tl_queue s ++ [t]) (tl_done s ++ [t]), true)
+  | _ => (s, false)
+  end.
+Proof. exact gen_sim_transmit. Qed.
+Print Assumptions C19_gen_transmit_once.
+
+(* OCR3TransmitLoader.Transmit: every other path returns an error before anything is queued or recorded *)
+Theorem C19_gen_transmit_rejections :
+  forall e2 d,
+  g_sim_transmit true e2 d = ([], RetO 1) /\ g_sim_transmit false true d = ([1; 2], RetO 1) /\
+  g_sim_transmit false false true = ([1; 2; 3], RetO 2).
+Proof. exact gen_sim_transmit_errors. Qed.
+Print Assumptions C19_gen_transmit_rejections.
+
+(* OCR3TransmitLoader.Load: nothing on an empty queue; otherwise stamp and copy every queued transmit (1), empty the queue (2), add one transaction to the block (3), count performs (4) *)
+Theorem C19_gen_load :
+  forall s p,
+  fst (tl_load s) = mkTl [] (tl_done s) /\
+  g_sim_load (Z.of_nat (length (tl_queue s))) p =
+  match tl_queue s with
+  | [] => ([], RetU)
+  | _ => (if p then [1; 2; 3; 4] else [1; 2; 3], Fall)
+  end.
+Proof. exact gen_sim_load. Qed.
+Print Assumptions C19_gen_load.
+
+(* straight-line bodies: Keys copy, Load stamp/copy, block-history fan-out (read keys, build history, send to every subscriber), plug-in event construction *)
+Theorem C19_gen_straight_line_bodies :
+  g_skm_keys_body = ([1], Fall) /\ g_sim_load_body = ([1; 2; 3; 4], Fall) /\
+  g_sim_history_broadcast = ([1; 2; 3], Fall) /\ g_sim_history_broadcast_keys = ([1; 2], Fall) /\
+  g_sim_history_broadcast_send = ([1], Fall) /\ g_sim_plugin_events_body = ([1; 2], Fall).
+Proof. exact gen_sim_straight. Qed.
+Print Assumptions C19_gen_straight_line_bodies.
+
+(* ReportTracker.GetLatestEvents: nothing before the first block; otherwise the look-back keys are read (1) and walked (2) *)
+Theorem C19_gen_latest_events :
+  forall s,
+  g_sim_latest_events (negb (is_some (rt_latest s))) =
+  match rt_latest s with None => ([], RetO 0) | Some _ => ([1; 2], RetO 1) end.
+Proof. exact gen_sim_latest_events. Qed.
+Print Assumptions C19_gen_latest_events.
+
+(* GetLatestEvents, per chain event: its plug-in events are appended whether or not the report decoded (none when it did not) *)
+Theorem C19_gen_latest_events_per_event :
+  forall e, g_sim_latest_events_event e = ([1; 2], Fall).
+Proof. exact gen_sim_latest_events_event. Qed.
+Print Assumptions C19_gen_latest_events_per_event.
+
+(* createPluginTransmitEvents: an undecodable report yields an error and no events; otherwise one event per result *)
+Theorem C19_gen_plugin_events :
+  forall e, g_sim_plugin_events e = if e then ([], RetO 0) else ([1], RetO 1).
+Proof. exact gen_sim_plugin_events. Qed.
+Print Assumptions C19_gen_plugin_events.
+
 End GenTie.
 
 (* Non-vacuity: a range crossing a power of ten, received out of order with a repeat, gives the
